@@ -14,9 +14,20 @@ def run(rep, tier):
                                 nontrivial=lambda r: r["stats"]["explicit"] >= 1 and r["stats"]["scoped"] >= 1 and r["stats"]["regs_placed"] >= 2,
                                 sample_fmt=lambda r: {"program": r["lines"][:12], "answers": r["obs"][:11]})
     rep.coverage.update(agg)
+    # ---- bounded-exhaustive validation (support for the tie, not a proof): EVERY builder program of k operations
+    from .. import buildersim
+    k = 2 if tier == "quick" else 3
+    ex = runner.correspondence(rep, prop=PROP, mod_name="harness.buildersim", driver_kind="builder", ncases=buildersim.exh_count(k),
+                               extra=(k,))
+    rep.coverage["bounded_exhaustive"] = {"program_length": k, "alphabet": len(buildersim.exh_alphabet(k)), "cases": ex["evaluations"],
+                                          "correspondence_diffs": ex["correspondence_diffs"], "oracle_failures": ex["oracle_failures"],
+                                          "distribution": ex["distribution"]}
+    rep.coverage["evaluations"] = agg["evaluations"] + ex["evaluations"]
+    rep.coverage["traces_validated_against_impl"] = agg["traces_validated_against_impl"] + ex["traces_validated_against_impl"]
     rep.coverage["rule"] = ("generated builder programs on the real csr.Builder: geometries with granularity dividing the data width, "
                             "nested Cluster/Index scopes (invalid ones too), register widths 0..5 words, explicit offsets (aligned, "
                             "unaligned to the register size, not a multiple of the word, overlapping, out of range), duplicate names "
                             "and objects, freeze, add after as_memory_map(); every answer and the resources() of as_memory_map() (or "
                             "its refusal) compared with the Lean model and with the layout rule of the property; non-trivial = "
-                            "program with an explicit offset, a scope and >= 2 placed registers")
+                            "program with an explicit offset, a scope and >= 2 placed registers; plus ALL programs of 2 (quick) / 3 (thorough) "
+                            "operations over a small alphabet followed by as_memory_map() (bounded_exhaustive)")
